@@ -33,9 +33,14 @@ THEOREMS = [
     "BeyondVerif.C04.parse_date_call_sites_use_time_system",
     "BeyondVerif.C04.parseDate_scale_reaches_date",
     "BeyondVerif.C04.parseDate_reading_label_free",
-    "BeyondVerif.C04.ccsds_epoch_roundtrip_partial",
+    "BeyondVerif.C04.ccsds_writers_convert_to_time_system",
+    "BeyondVerif.C04.ccsds_epoch_roundtrip_same_label",
+    "BeyondVerif.C04.ccsds_epoch_roundtrip",
+    "BeyondVerif.C04.ccsds_reread_within_slack",
+    "BeyondVerif.C04.ccsds_epoch_roundtrip_slack",
     "BeyondVerif.C04.ccsds_message_labels",
     "BeyondVerif.C04W.ccsds_mixed_label_moves_instant",
+    "BeyondVerif.C04W.ccsds_mixed_label_keeps_instant",
     "BeyondVerif.C04W.same_day_shortcut_keeps_wrong_record",
     "BeyondVerif.C04W.eop_day_own_scale_depends_on_label",
 ]
@@ -47,7 +52,8 @@ LEVEL_TEXT = ("Lean theorems over C03's faithful integer model of beyond's Date 
               "day and is the same instant with the same record under every label of the operand; time since epoch, ordering/equality/hash, interpolation abscissa "
               "and the UTC calendar reading handed to SGP4 / written to a TLE are functions of the instant. CCSDS: a string-level model of parse_date (strptime cascade "
               "regenerated from commons.py) with the theorem that the TIME_SYSTEM reaches the constructed date on every format branch and from every reader call site; "
-              "write-then-read keeps the instant for epochs labelled like TIME_SYSTEM (for other labels the code moves the instant: kernel-checked witness, open finding). "
+              "every epoch emission site of the OPM/OEM/OMM/TDM writers (regenerated) converts to the message's TIME_SYSTEM, and write-then-read keeps the instant of an epoch "
+              "labelled in any scale (exact for UTC/TAI/TT/GPS, 2.5 us with UT1/TDB; fixed by aa1842c, regression witness kept). "
               "The model is tied to the code by a correspondence on operation HISTORIES of the real Date (construct, +, -, change_scale, copy, DateRange iteration, "
               "comparisons, parse_date) in three EOP environments (real IERS tables, all-zero, the constant mock of the test-suite), and by an oracle sweep of every "
               "date-consuming public operation x 6 labels for the argument date x 6 labels for the epoch on the real API.")
@@ -61,9 +67,8 @@ ASSUMPTIONS = ["instants are at least 2 minutes away from a leap second (documen
                "dates exact to the microsecond; UT1 and TDB offsets rounded to the microsecond as timedelta does",
                "CCSDS epoch texts are ASCII"]
 NOT_COVERED = ["that every public operation consumes its date only through the modelled quantities is checked by the label sweep on the real API, not proved",
-               "OMM and TDM writers (same epoch formatting as OPM / OEM) are swept by C13, not here"]
-OPEN = ["ccsds_epoch_roundtrip_partial: full statement (every epoch of a message reads back as the instant written, whatever its label) is false of the code — "
-        "open finding C04-ccsds-mixed-scale-epochs, proposed_fixes/C04-ccsds-mixed-scale-epochs.diff"]
+               "TDM reading/writing beyond the epochs (participants, units) is C13's"]
+OPEN = []
 RULE = ("oracle: for each operation (SGP4, native SGP4, Kepler, J2, numerical, CW, Sun/Moon, frame conversion, ephemeris interpolation, event detection, "
         "TLE writing, CCSDS OPM/OEM writing+reading in every legal spelling of the epochs, Date + / - timedelta, DateRange / Ephem iteration) the result for the instant "
         "labelled UTC is compared with the result for the same instant in each of the other 5 scales, for the argument date and for the object's epoch; "
@@ -175,7 +180,142 @@ def parse_date_call_sites():
                             ok = True
                         elif isinstance(a, ast.Name) and assigns.get(a.id) and all("TIME_SYSTEM" in v for v in assigns[a.id]):
                             ok = True
-                    sites.append((f"{fn}:{func.name}:{c.lineno}", ok))
+                    args_txt = ", ".join(" ".join((ast.get_source_segment(src, a_) or "?").split()) for a_ in c.args)
+                    sites.append((f"{fn}:{func.name}:parse_date({args_txt})", ok))
+    return sorted(set(sites))
+
+
+# ---- writers: every place an epoch is put on the wire
+
+def _src(src, node):
+    return " ".join((ast.get_source_segment(src, node) or "?").split())
+
+
+def _is_fmt_name(node):
+    return isinstance(node, ast.Name) and node.id.startswith("DATE_FMT")
+
+
+def _head_scale_param(func, src):
+    """parameters P of `func` such that the function reads `P.date.scale` / `P.start.scale` (it decides TIME_SYSTEM)"""
+    params = {a.arg for a in func.args.args}
+    out = set()
+    for n in ast.walk(func):
+        if isinstance(n, ast.Attribute) and n.attr == "scale" and isinstance(n.value, ast.Attribute) and n.value.attr in ("date", "start") \
+                and isinstance(n.value.value, ast.Name) and n.value.value.id in params:
+            out.add(n.value.value.id)
+    return out
+
+
+def writer_epoch_sites():
+    """every expression the CCSDS writers format as an epoch (`X.strftime(DATE_FMT…)`, a `{…:{dfmt}}` field of a
+    `.format(…, dfmt=DATE_FMT…)` template), per writer function: (file:function, expression text, kind) with kind
+      head      — the date that decides TIME_SYSTEM (`O.date` / `O.start` of the message object O, or of a copy of it)
+      converted — `in_scale(<date>, <head>.scale)`, directly or through a local name last assigned from such a call
+      creation  — `Date.now()` (CREATION_DATE of the header: not an epoch of the message's TIME_SYSTEM)
+      raw       — anything else: a date printed in its own scale under the message's TIME_SYSTEM
+    Keyed on function name and expression text, no line numbers."""
+    import string
+    files = {}
+    for fn in sorted(os.listdir(_ccsds_dir())):
+        if fn.endswith(".py"):
+            src = open(os.path.join(_ccsds_dir(), fn)).read()
+            files[fn] = (src, ast.parse(src))
+    # functions that decide TIME_SYSTEM from one of their parameters, and at which argument position
+    meta_funcs = {}
+    for fn, (src, tree) in files.items():
+        for func in [n for n in ast.walk(tree) if isinstance(n, ast.FunctionDef)]:
+            ps = _head_scale_param(func, src)
+            if ps and any(isinstance(n, ast.Constant) and isinstance(n.value, str) and "TIME_SYSTEM" in n.value for n in ast.walk(func)):
+                names = [a.arg for a in func.args.args]
+                meta_funcs[func.name] = [names.index(p_) for p_ in ps]
+    sites = []
+    for fn, (src, tree) in files.items():
+        for func in [n for n in ast.walk(tree) if isinstance(n, ast.FunctionDef)]:
+            # the message object(s) of this function
+            heads = set(_head_scale_param(func, src)) if func.name in meta_funcs else set()
+            for c in ast.walk(func):
+                if isinstance(c, ast.Call) and isinstance(c.func, ast.Name) and c.func.id in meta_funcs:
+                    for pos in meta_funcs[c.func.id]:
+                        if pos < len(c.args) and isinstance(c.args[pos], ast.Name):
+                            heads.add(c.args[pos].id)
+            assigns = {}
+            for n in ast.walk(func):
+                if isinstance(n, ast.Assign):
+                    for t in n.targets:
+                        if isinstance(t, ast.Name):
+                            assigns.setdefault(t.id, []).append((n.lineno, n.value))
+
+            def is_obj(node):
+                """the message object, a copy of it, or it divided by a unit"""
+                if isinstance(node, ast.Name):
+                    if node.id in heads:
+                        return True
+                    vals = assigns.get(node.id, [])
+                    return bool(vals) and all(is_obj(v) for _, v in vals if not (isinstance(v, ast.Name) and v.id == node.id))
+                if isinstance(node, ast.BinOp) and isinstance(node.op, ast.Div):
+                    return is_obj(node.left)
+                if isinstance(node, ast.Call) and isinstance(node.func, ast.Attribute) and node.func.attr == "copy":
+                    return is_obj(node.func.value)
+                return False
+
+            def is_head(node):
+                return isinstance(node, ast.Attribute) and node.attr in ("date", "start") and is_obj(node.value)
+
+            def kind_of(node, line):
+                if isinstance(node, ast.Call) and _src(src, node) == "Date.now()":
+                    return "creation"
+                if isinstance(node, ast.Call) and isinstance(node.func, ast.Name) and node.func.id == "in_scale":
+                    a = node.args
+                    ok = len(a) == 2 and isinstance(a[1], ast.Attribute) and a[1].attr == "scale" and is_head(a[1].value)
+                    return "converted" if ok else "raw"
+                if is_head(node):
+                    return "head"
+                if isinstance(node, ast.Name):
+                    before = [(ln, v) for ln, v in assigns.get(node.id, []) if ln <= line]
+                    if before:
+                        return kind_of(max(before, key=lambda t: t[0])[1], line)
+                return "raw"
+
+            for c in ast.walk(func):
+                if not (isinstance(c, ast.Call) and isinstance(c.func, ast.Attribute)):
+                    continue
+                if c.func.attr == "strftime" and c.args and _is_fmt_name(c.args[0]):
+                    sites.append((f"{fn}:{func.name}", _src(src, c.func.value), kind_of(c.func.value, c.lineno)))
+                elif c.func.attr == "format" and isinstance(c.func.value, ast.Constant) and isinstance(c.func.value.value, str):
+                    kw = {k.arg: k.value for k in c.keywords if k.arg}
+                    pos = list(c.args)
+                    if not any(_is_fmt_name(v) for v in list(kw.values()) + pos):
+                        continue
+                    counter = [0]
+
+                    def lookup(name):
+                        """(value node, attribute tail) of a replacement field name"""
+                        root = name.split(".")[0].split("[")[0]
+                        tail = name[len(root):]
+                        if root == "":
+                            i = counter[0]; counter[0] += 1
+                            return (pos[i] if i < len(pos) else None), tail
+                        if root.isdigit():
+                            return (pos[int(root)] if int(root) < len(pos) else None), tail
+                        return kw.get(root), tail
+                    for _, field, spec, _ in string.Formatter().parse(c.func.value.value):
+                        if field is None:
+                            continue
+                        val, tail = lookup(field)
+                        uses_fmt = False
+                        for _, f2, _, _ in string.Formatter().parse(spec or ""):
+                            if f2 is not None:
+                                v2, _ = lookup(f2)
+                                uses_fmt = uses_fmt or (v2 is not None and _is_fmt_name(v2))
+                        if not uses_fmt or val is None:
+                            continue
+                        node = val
+                        for attr in [t for t in tail.split(".") if t]:
+                            node = ast.Attribute(value=node, attr=attr, ctx=ast.Load())
+                        txt = _src(src, val)
+                        if tail and not isinstance(val, (ast.Name, ast.Attribute, ast.Call)):
+                            txt = f"({txt})"
+                        sites.append((f"{fn}:{func.name}", txt + tail, kind_of(node, c.lineno)))
     return sorted(set(sites))
 
 
@@ -185,13 +325,19 @@ def extract_ccsds_dates():
     sites = parse_date_call_sites()
     if not sites:
         raise RuntimeError("no call of parse_date found in beyond/io/ccsds")
+    wsites = writer_epoch_sites()
+    if not any(k == "head" for _, _, k in wsites):
+        raise RuntimeError("no epoch emission found in the CCSDS writers")
     txt = ["/- GENERATED by harness/props/C04.py from beyond/io/ccsds/*.py (AST) — do not edit. -/",
            "namespace BeyondVerif.Generated",
            "/-- `parse_date`: the `Date.strptime(string, FMT, scale=scale)` calls in the order the `try … except ValueError` cascade",
            "tries them: (format, is the scale parameter handed on?) -/",
            "def parseDateBranches : List (String × Bool) := [" + ", ".join(f"({_lean_str(f)}, {'true' if s_ else 'false'})" for f, s_ in brs) + "]",
-           "/-- every call of `parse_date` in beyond/io/ccsds: (file:function:line, the scale argument is the message's TIME_SYSTEM?) -/",
+           "/-- every call of `parse_date` in beyond/io/ccsds: (file:function:call text, the scale argument is the message's TIME_SYSTEM?) -/",
            "def parseDateCallSites : List (String × Bool) := [" + ",\n  ".join(f"({_lean_str(w)}, {'true' if o else 'false'})" for w, o in sites) + "]",
+           "/-- every expression the writers format as an epoch: (file:function, expression, kind) — head = the date that decides",
+           "TIME_SYSTEM, converted = `in_scale(date, head.scale)`, creation = `Date.now()` of the header, raw = a date in its own scale -/",
+           "def writerEpochSites : List (String × String × String) := [" + ",\n  ".join(f"({_lean_str(w)}, {_lean_str(e)}, {_lean_str(k)})" for w, e, k in wsites) + "]",
            "end BeyondVerif.Generated", ""]
     if core.write_if_changed(os.path.join(core.LEAN, "BeyondVerif", "Generated", "CcsdsDates.lean"), "\n".join(txt)):
         return ["Generated/CcsdsDates.lean"]
@@ -1062,13 +1208,16 @@ def ccsds_spellings(out, rng, big):
 
 
 def ccsds_mixed(out, rng, big):
-    """one message, epochs under different labels: an OPM whose maneuver dates carry another label than the state's date,
-    an OEM whose points carry different labels.  dumps then loads must give the instants back"""
+    """theorems ccsds_epoch_roundtrip / ccsds_writers_convert_to_time_system on the real writers (finding
+    ccsds-mixed-scale-epochs, fixed by aa1842c; the family stays alive): one message, epochs under different labels — an OPM
+    whose maneuver dates carry another label than the state's date, an OEM whose points, a TDM whose observations carry
+    different labels (an OMM has a single epoch).  dumps then loads must give the instants back, STOP_TIME included"""
     from beyond.dates import Date, timedelta
     from beyond.io.tle import Tle
     from beyond.io import ccsds as io_ccsds
     from beyond.orbits import Ephem
     from beyond.orbits.man import ImpulsiveMan, ContinuousMan
+    from beyond.utils.measures import MeasureSet, Range
     with real_env("real"):
         orb0 = Tle(TLES[2]).orbit()
         t0 = Date(int(orb0.date.mjd) + 2, 50400.0) + timedelta(microseconds=rng.randrange(10**6))
@@ -1084,18 +1233,27 @@ def ccsds_mixed(out, rng, big):
                     sv.maneuvers = [ImpulsiveMan(m1.change_scale(other), [1.0, 0.0, 0.0]), ContinuousMan(m2.change_scale(other), timedelta(seconds=60), dv=[0.0, 1.0, 0.0], date_pos="start")]
                     # OEM: first point decides TIME_SYSTEM, the others carry the other label
                     eph = Ephem([relabel(p, head if i == 0 else other) for i, p in enumerate(pts)])
-                    for kind, obj, exp in (("opm-maneuver", sv, [t0, m1, m2]), ("oem-point", eph, [p.date for p in pts])):
+                    # TDM: the first observation decides TIME_SYSTEM
+                    tdm = MeasureSet([Range(["Toulouse", "1998-067A", "Toulouse"], (t0 + timedelta(seconds=10 * i)).change_scale(head if i == 0 else other), 1000e3 + i) for i in range(5)])
+                    for kind, obj, exp in (("opm-maneuver", sv, [t0, m1, m2]), ("oem-point", eph, [p.date for p in pts]), ("tdm-observation", tdm, [t0 + timedelta(seconds=10 * i) for i in range(5)])):
                         out.count(key=("ccsds-mixed", kind, head, other, fmt), nontrivial=head != other, op="ccsds-mixed-" + kind, label=f"{head}/{other}")
                         inp = {"message": kind, "fmt": fmt, "TIME_SYSTEM_from": head, "other_epochs_labelled": other}
                         try:
                             back = io_ccsds.loads(io_ccsds.dumps(obj, fmt=fmt))
                             got = ([back.date] + [getattr(m, "date", None) or m.start for m in back.maneuvers]) if kind == "opm-maneuver" else [p.date for p in back]
+                            if kind != "opm-maneuver" and fmt == "kvn":
+                                # STOP_TIME of the segment, as written, read in the segment's TIME_SYSTEM
+                                import re as _re
+                                txt_ = io_ccsds.dumps(obj, fmt=fmt)
+                                stop = _re.search(r"STOP_TIME\s*=\s*(\S+)", txt_).group(1)
+                                got.append(Date.strptime(stop, "%Y-%m-%dT%H:%M:%S.%f", scale=head))
+                                exp = exp + [exp[-1]]
                         except Exception as e:  # noqa: BLE001
                             out.fail(f"ccsds-write:{kind}:label-dependent", "dumps/loads raises", inp, observed=repr(e), expected=[str(e_) for e_ in exp])
                             continue
                         moved = [round((g - e).total_seconds(), 6) for g, e in zip(got, exp)]
                         if len(got) != len(exp) or any(abs(m) > 1.5e-6 for m in moved):
-                            # the narrow family of the open finding: each epoch written as its own-scale clock reading under the
+                            # the narrow family of the finding: each epoch written as its own-scale clock reading under the
                             # head's TIME_SYSTEM, i.e. displaced by exactly (other − head) of the scale offsets
                             d_exp = (minus_utc(other, int(t0.mjd), "real") - minus_utc(head, int(t0.mjd), "real")) / 1e6
                             # (an Ephem sorts its points by date on reading: compare as sets of instants)
